@@ -3,7 +3,7 @@ package html
 import (
 	"fmt"
 	"io"
-	"unicode"
+	"strings"
 
 	"github.com/elliotchance/gedcom/v39/html/core"
 )
@@ -22,9 +22,13 @@ func (c *SurnameLink) WriteHTMLTo(w io.Writer) (int64, error) {
 	// This must be the same letter that the individuals with this surname
 	// are listed under, see getIndexLetter. Everything that does not start
 	// with a letter from a to z is on the page for symbols.
+	//
+	// The whole surname has to be lower cased, not its first byte: the lower
+	// case of "İ" (U+0130) starts with an "i" and the Kelvin sign (U+212A)
+	// becomes a "k", and that is where getIndexLetter lists them.
 	letter := symbolLetter
-	if first := unicode.ToLower(rune(c.surname[0])); first >= 'a' && first <= 'z' {
-		letter = first
+	if name := strings.ToLower(c.surname); name != "" && name[0] >= 'a' && name[0] <= 'z' {
+		letter = rune(name[0])
 	}
 
 	destination := fmt.Sprintf("%s#%s", PageIndividuals(letter), c.surname)
